@@ -2799,6 +2799,36 @@ mod real {
         }
     }
 
+    /// Runs a future to completion on the calling thread. The operations of a cache whose layers
+    /// are all MemoryCaches never wait for anything (no I/O, no timer, no task): one poll
+    /// completes them, so those cases need no runtime per worker; with a disk layer (tokio::fs)
+    /// the future is driven by a current-thread runtime as in the DiskCache section.
+    enum Exec {
+        Poll,
+        Rt(tokio::runtime::Runtime),
+    }
+
+    impl Exec {
+        fn new(disk: bool) -> Exec {
+            if disk { Exec::Rt(tokio::runtime::Builder::new_current_thread().build().expect("rt")) } else { Exec::Poll }
+        }
+        fn run<F: std::future::Future>(&self, f: F) -> F::Output {
+            match self {
+                Exec::Rt(rt) => rt.block_on(f),
+                Exec::Poll => {
+                    let mut f = std::pin::pin!(f);
+                    let mut cx = std::task::Context::from_waker(std::task::Waker::noop());
+                    loop {
+                        if let std::task::Poll::Ready(v) = f.as_mut().poll(&mut cx) {
+                            return v;
+                        }
+                        std::thread::yield_now();
+                    }
+                }
+            }
+        }
+    }
+
     pub fn mexecute(case: &MCase, choose: &mut dyn FnMut(usize, &[usize]) -> Choice) -> MOutcome {
         use cascette_cache::config::MultiLayerCacheConfig;
         use cascette_cache::traits::MultiLayerCache;
@@ -2828,12 +2858,12 @@ mod real {
             let _g = bg.enter();
             Arc::new(MlCache::new(mc).expect("config"))
         };
-        let rt = tokio::runtime::Builder::new_current_thread().build().expect("rt");
+        let rt = Exec::new(case.disk);
         inflight("ml", case.line(""), "pre-operations");
         let mut pre = vec![];
         for op in &case.pre {
             advance_clocks();
-            pre.push(rt.block_on(mexec(&cache, op)));
+            pre.push(rt.run(mexec(&cache, op)));
         }
         advance_clocks();
         let nt = case.progs.len();
@@ -2841,13 +2871,13 @@ mod real {
         let results: Arc<Mutex<Vec<Vec<String>>>> = Arc::new(Mutex::new(vec![vec![]; nt]));
         let mut handles = vec![];
         for (tid, prog) in case.progs.iter().cloned().enumerate() {
-            let (ctl, cache, results) = (ctl.clone(), cache.clone(), results.clone());
+            let (ctl, cache, results, disk) = (ctl.clone(), cache.clone(), results.clone(), case.disk);
             handles.push(std::thread::spawn(move || {
                 WORKER.with(|w| *w.borrow_mut() = Some((ctl.clone(), tid)));
-                let rt = tokio::runtime::Builder::new_current_thread().build().expect("rt");
+                let rt = Exec::new(disk);
                 for op in &prog {
                     ctl.park(tid, 'S');
-                    let r = catch(AssertUnwindSafe(|| rt.block_on(mexec(&cache, op)))).unwrap_or_else(|_| "panic".into());
+                    let r = catch(AssertUnwindSafe(|| rt.run(mexec(&cache, op)))).unwrap_or_else(|_| "panic".into());
                     results.lock().unwrap_or_else(|e| e.into_inner())[tid].push(r);
                 }
                 WORKER.with(|w| *w.borrow_mut() = None);
@@ -2872,16 +2902,16 @@ mod real {
         out.results = results.lock().unwrap_or_else(|e| e.into_inner()).clone();
         phase("quiescent-probes");
         advance_clocks();
-        out.tracked = rt.block_on(cache.multi_layer_stats()).map(|s| s.tracked_entries as u64).unwrap_or(u64::MAX);
+        out.tracked = rt.run(cache.multi_layer_stats()).map(|s| s.tracked_entries as u64).unwrap_or(u64::MAX);
         // the books of every layer first, then the contents layer by layer (a probe get of a
         // memory layer only touches the entry's access stamp)
         for l in 0..ML_LAYERS {
-            let st = rt.block_on(cache.layer_stats(l));
+            let st = rt.run(cache.layer_stats(l));
             out.layers.push(MLayer { n: st.as_ref().map(|s| s.entry_count as u64).unwrap_or(u64::MAX), b: st.map(|s| s.memory_usage_bytes as u64).unwrap_or(u64::MAX), ..MLayer::default() });
         }
         for l in 0..ML_LAYERS {
             for k in 0..NKEYS {
-                match rt.block_on(cache.get_from_layer(&key(k), l)) {
+                match rt.run(cache.get_from_layer(&key(k), l)) {
                     Ok(Some(v)) => {
                         out.layers[l].contents.insert(k, v.to_vec());
                     }
@@ -3172,6 +3202,41 @@ mod real {
             }
         }
         fails
+    }
+
+    /// The two-strength search must tell apart what it is there to tell apart (a test of the
+    /// oracle itself, run at every start): a get served from below a half-done remove is not
+    /// atomic but layer-wise explainable; a remove that answers `false` after the same thread's
+    /// contains saw the key, with the key still stored at the end, is explained by neither; real
+    /// time order binds both.
+    fn ml_lin_selftest() -> Result<(), String> {
+        let mk = |progs: Vec<Vec<MOp>>, results: Vec<Vec<&str>>, fin: [&[(usize, &[u8])]; 2]| {
+            let case = MCase { disk: false, pre: vec![], progs };
+            let d = Drive { sched: String::new(), trace: String::new(), drain: String::new(), steps: vec![], alive: vec![], timeout: false, stuck: None };
+            let layers = fin.iter().map(|l| MLayer { contents: l.iter().map(|(k, v)| (*k, v.to_vec())).collect(), ..MLayer::default() }).collect();
+            let out = MOutcome { pre: vec![], results: results.iter().map(|r| r.iter().map(|x| x.to_string()).collect()).collect(), d, layers, tracked: 0 };
+            (case, out)
+        };
+        let both: MRef = vec![[(0usize, vec![0xe5u8])].into_iter().collect(), [(0usize, vec![0x97u8, 0x97])].into_iter().collect()];
+        let empty: MRef = vec![BTreeMap::new(), BTreeMap::new()];
+        type T = (&'static str, MRef, (MCase, MOutcome), Vec<Vec<(usize, usize)>>, bool, bool);
+        let cases: Vec<T> = vec![
+            ("get below a half-done remove", both.clone(), mk(vec![vec![MOp::Get(0)], vec![MOp::Remove(0)]], vec![vec!["v9797"], vec!["t"]], [&[], &[]]), vec![vec![(3, 5)], vec![(0, 9)]], false, true),
+            ("get before the remove", both.clone(), mk(vec![vec![MOp::Get(0)], vec![MOp::Remove(0)]], vec![vec!["ve5"], vec!["t"]], [&[], &[]]), vec![vec![(3, 5)], vec![(0, 9)]], true, true),
+            ("two removes both true", both.clone(), mk(vec![vec![MOp::Remove(0)], vec![MOp::Remove(0)]], vec![vec!["t"], vec!["t"]], [&[], &[]]), vec![vec![(0, 6)], vec![(1, 9)]], false, true),
+            ("two removes both true, one after the other", both, mk(vec![vec![MOp::Remove(0)], vec![MOp::Remove(0)]], vec![vec!["t"], vec!["t"]], [&[], &[]]), vec![vec![(0, 4)], vec![(5, 9)]], false, false),
+            ("remove says false after contains saw the in-flight put", empty.clone(), mk(vec![vec![MOp::Put(0, vec![0xa1])], vec![MOp::Contains(0), MOp::Remove(0)]], vec![vec!["ok"], vec!["t", "f"]], [&[(0, &[0xa1])], &[]]), vec![vec![(0, 9)], vec![(2, 3), (4, 5)]], false, false),
+            ("remove takes the in-flight put out", empty.clone(), mk(vec![vec![MOp::Put(0, vec![0xa1])], vec![MOp::Contains(0), MOp::Remove(0)]], vec![vec!["ok"], vec!["t", "t"]], [&[], &[]]), vec![vec![(0, 9)], vec![(2, 3), (4, 8)]], true, true),
+            ("get misses a put that had finished", empty, mk(vec![vec![MOp::Put(0, vec![0xa1])], vec![MOp::Get(0)]], vec![vec!["ok"], vec!["none"]], [&[(0, &[0xa1])], &[]]), vec![vec![(0, 4)], vec![(5, 7)]], false, false),
+        ];
+        for (name, r0, (case, out), iv, atomic, layerwise) in &cases {
+            for (lw, want) in [(false, atomic), (true, layerwise)] {
+                if (MLin { case, out, iv, layerwise: lw }).explains(r0) != *want {
+                    return Err(format!("`{name}`, {} search: expected {want}", if lw { "layer-wise" } else { "atomic" }));
+                }
+            }
+        }
+        Ok(())
     }
 
     impl Runner {
@@ -3572,7 +3637,7 @@ mod real {
                 }
             }
         }
-        r.s.tally_n("K:ml-program-sets-1x2-schedules-with-at-most-2-preemptions", ksets);
+        r.s.tally_n(&format!("K:ml-program-sets-1x2-schedules-with-at-most-{}-preemptions", if thorough { 3 } else { 2 }), ksets);
         r.s.tally_n("K:ml-schedules", kscheds);
         r.s.extra("wall_ms_ml_K", serde_json::json!(t1.elapsed().as_millis() as u64));
         // N. memory above disk (oracle only): the disk layer is written before the threads start
@@ -3595,7 +3660,7 @@ mod real {
         r.s.extra("wall_ms_ml_N", serde_json::json!(t3.elapsed().as_millis() as u64));
         // L. sampled 2 x 2 program sets: every schedule with at most 2 preemptions
         let t2 = Instant::now();
-        let nl = if thorough { 600 } else { 30 };
+        let nl = if thorough { 300 } else { 30 };
         for _ in 0..nl {
             let pre = rng.pick(&pres).clone();
             let prog = |rng: &mut Rng| vec![rng.pick(&alpha).clone(), rng.pick(&alpha).clone()];
@@ -3606,7 +3671,7 @@ mod real {
         r.s.tally_n("L:ml-program-sets-2x2-preemption-bounded", nl);
         r.s.extra("wall_ms_ml_L", serde_json::json!(t2.elapsed().as_millis() as u64));
         // M. random programs, random schedules: 2-3 threads, 1-3 operations
-        let nm = if thorough { 40_000 } else { 2_000 };
+        let nm = if thorough { 20_000 } else { 2_000 };
         for i in 0..nm {
             let nt = if i % 3 == 2 { 3 } else { 2 };
             let case = mrandom_case(rng, nt, 3);
@@ -3625,6 +3690,9 @@ mod real {
         spawn_stall_watchdog(r.s.clone());
         if let Err(e) = dyn_lin_selftest() {
             r.s.oracle_fail("harness-selftest-dyn-linearizability-search", &e, &[]);
+        }
+        if let Err(e) = ml_lin_selftest() {
+            r.s.oracle_fail("harness-selftest-ml-linearizability-search", &e, &[]);
         }
         r.s.set_rule("one evaluation = one schedule replayed on the real MemoryCache, DiskCache or MultiLayerCacheImpl by the controller, or one free-running DynamicContainer stress round (dstress); non-trivial = the schedule switches threads at least once inside an operation (between two of its shared-state accesses), every stress round counts; distinct = canonical request line (programs + executed schedule / round number)");
         if let Some(f) = &args.replay {
